@@ -70,6 +70,14 @@ def nd_peer_id_fixed(it, a, ty, callee):
     return Adt('peer_id::PeerId', 0, [peer_mh(v.v)])
 
 
+def nd_pattern(it, a, ty, callee):
+    n = a[1]
+    if not n.conc:
+        raise Inconclusive('pattern(len) needs a concrete length')
+    from .values import Seq
+    return Seq([Int(i % 251, 8) for i in range(n.v)], 'vec')
+
+
 def nd_cid(it, a, ty, callee):
     if it.concrete is not None:
         return Atom('cid', _next_concrete(it) & 0xff)
@@ -119,6 +127,7 @@ def install(it):
     A(r'(?:\w+::)*verif_rt::Nondet::multiaddr', nd_multiaddr)
     A(r'(?:\w+::)*verif_rt::Nondet::peer_id', nd_peer_id)
     A(r'(?:\w+::)*verif_rt::Nondet::cid', nd_cid)
+    A(r'(?:\w+::)*verif_rt::Nondet::pattern', nd_pattern)
     A(r'(?:\w+::)*verif_rt::Nondet::peer_id_fixed', nd_peer_id_fixed)
     A(r'(?:\w+::)*verif_rt::assume', rt_assume)
     A(r'(?:\w+::)*verif_rt::check', rt_check)
